@@ -144,8 +144,14 @@ func genSkipRun(g *fgen, n int, modes []string, skipProb, runProb float64) []*Sc
 			v11 := &rnode{name: g.pick("v1.1", "v1-beta", "v1#x"), skip: "SkipNow", calls: []*callSpec{g.call([]string{"snapshot"}, []string{""})}}
 			pv1 := &rnode{name: "v1", calls: v1.calls, subs: v1.subs}
 			pv11 := &rnode{name: v11.name, calls: v11.calls}
-			p.roots[0].subs = append(p.roots[0].subs, pv1, pv11)
-			q.roots[0].subs = append(q.roots[0].subs, v1, v11)
+			if g.chance(0.5) {
+				p.roots[0].subs = append(p.roots[0].subs, pv1, pv11)
+				q.roots[0].subs = append(q.roots[0].subs, v1, v11)
+			} else {
+				// the longer name is declared (and skipped) first
+				p.roots[0].subs = append(p.roots[0].subs, pv11, pv1)
+				q.roots[0].subs = append(q.roots[0].subs, v11, v1)
+			}
 			sc.Procs[0].Tests = p.tests()
 		}
 		spec := procSpec(modes[g.r.Intn(len(modes))])
